@@ -201,7 +201,7 @@ def class_list():
 def behaviour(a):
     """per module, in a process that imported only that module: every rule on sentences derived from the grammar,
     mutants and a few fixed strings; end sets at offset 0 vs the engine model on the loader model's registry"""
-    per_rule = 6 if a.tier == "quick" else 60
+    per_rule = 6 * a.boost if a.tier == "quick" else 60
     classes = class_list()
     bymod = {}
     for m, c in classes:
@@ -332,7 +332,7 @@ R5234 = [n for n in META if n not in ("case-insensitive-string", "case-sensitive
 
 
 def c15(a):
-    per_rule = 12 if a.tier == "quick" else 150
+    per_rule = 12 * a.boost if a.tier == "quick" else 150
     r = child({"import": ["rfc7405"], "gen": {"classes": [["rfc7405", "Rule"], ["rfc5234", "Rule"], ["meta", ""]], "seed": a.seed, "per_rule": per_rule, "maxlen": 50}})
     if "__error__" in r:
         return {"coverage": {}, "violations": [{"what": "harness: " + r["__error__"][-300:], "identity": "harness-error", "replay_payload": r}]}
@@ -397,7 +397,7 @@ def c19(a):
     # sentences per pair: generate for exactly the rules in the pairs (a dedicated child run with per_rule on those rules)
     want = sorted({(p[0], p[1]) for p in pairs} | {(p[2], p[3]) for p in pairs})
     job = {"import": mods, "gen_rules": want, "seed": a.seed, "per_rule": per_rule}
-    g = child({"import": mods, "gen": {"classes": [[m, "Rule"] for m in mods], "seed": a.seed, "per_rule": per_rule if a.tier == "thorough" else 4,
+    g = child({"import": mods, "gen": {"classes": [[m, "Rule"] for m in mods], "seed": a.seed, "per_rule": per_rule if a.tier == "thorough" else 4 * a.boost,
                                        "maxlen": 60}})
     if "__error__" in g:
         return {"coverage": {}, "violations": [{"what": "harness: " + g["__error__"][-300:], "identity": "harness-error", "replay_payload": g}]}
@@ -471,6 +471,7 @@ def main():
     ap.add_argument("--mode", default=None)
     ap.add_argument("--seed", type=int, default=0)
     ap.add_argument("--tier", default="quick")
+    ap.add_argument("--boost", type=int, default=1, help="budget multiplier (a modelled source unit changed, or an obligation no longer checks)")
     ap.add_argument("--out", default=None)
     ap.add_argument("--child", default=None)
     a = ap.parse_args()
